@@ -25,6 +25,9 @@
 #include "ref_edge.h"
 #include "ref_export.h"
 #include "ref_math.h"
+#ifdef NASA_REFINE_VERIF
+#include "ref_verif.h"
+#endif
 
 /* parallel requirement, all local */
 REF_FCN REF_STATUS ref_swap_remove_two_face_cell(REF_GRID ref_grid,
@@ -690,6 +693,9 @@ REF_FCN static REF_STATUS ref_swap_tri_edge(REF_GRID ref_grid, REF_INT node0,
   RSS(ref_cell_list_with2(ref_cell, node0, node1, 2, &ncell, cell_to_swap),
       "more then two");
   REIS(2, ncell, "there should be two triangles for manifold");
+#ifdef NASA_REFINE_VERIF
+  ref_verif_op("begin", "swap_tri_edge", ref_grid, node0, node1, REF_EMPTY);
+#endif
   RSS(ref_cell_nodes(ref_cell, cell_to_swap[0], nodes), "nodes tri0");
   RSS(ref_cell_remove(ref_cell, cell_to_swap[0]), "remove");
   RSS(ref_cell_remove(ref_cell, cell_to_swap[1]), "remove");
@@ -703,6 +709,9 @@ REF_FCN static REF_STATUS ref_swap_tri_edge(REF_GRID ref_grid, REF_INT node0,
   nodes[2] = node3;
   RSS(ref_cell_add(ref_cell, nodes, &new_cell), "add node0 version");
 
+#ifdef NASA_REFINE_VERIF
+  ref_verif_op("accept", "swap_tri_edge", ref_grid, node0, node1, REF_EMPTY);
+#endif
   return REF_SUCCESS;
 }
 
